@@ -51,6 +51,15 @@ def handle (case impl : List String) : Verdict :=
           range3 a0 a1 a2' / 200 + ratMax (ratAbs a0) (ratMax (ratAbs a1) (ratAbs a2')) / 100000 + 1/1000000
         let tolZ := zRange / 200 + zScale / 100000
         let bigArea := ratAbs a2 > 2/1000000
+        -- f32 conditioning: a triangle whose smallest altitude h is within ~2000 ulps of its coordinates
+        -- (h < 2000 * 2^-24 * max|coord|, e.g. 4e-3 px at coordinate 32) has a plane gradient so steep that
+        -- ONE rounding of a vertex coordinate moves the plane value by more than the 0.5 % tolerance.
+        -- h = |a2| / L with L the longest edge; compared squared, in exact arithmetic.
+        let sq (q : Rat) : Rat := q * q
+        let len2 (p q : P2) : Rat := sq (p.x - q.x) + sq (p.y - q.y)
+        let l2 := ratMax (len2 p0 p1) (ratMax (len2 p1 p2) (len2 p0 p2))
+        let maxC := [p0.x, p0.y, p1.x, p1.y, p2.x, p2.y].foldl (fun m q => ratMax m (ratAbs q)) 1
+        let illCond := a2 != 0 && sq a2 < sq (maxC * 2000 / 16777216) * l2
         let specFail : Option (String × String) := rowsF.findSome? fun (row, words) =>
           let frs := chunk stride (List.range row.n) words
           (frs.zip (List.range row.n)).findSome? fun (fw, i) =>
@@ -75,8 +84,12 @@ def handle (case impl : List String) : Verdict :=
                   if ratAbs (got - want) > tolVar.getD j 0 then
                     some ("attribute-off-plane", s!"pixel ({px},{row.y}) component {j}: {ratApprox got}, perspective-correct plane value {ratApprox want}")
                   else none
+        let v := if illCond then v.addTag "ill-conditioned" else v
         let v := match specFail with
-          | some (key, msg) => v.withSpec true key msg
+          | some (key, msg) =>
+            if illCond && (key == "depth-off-plane" || key == "attribute-off-plane") then
+              v.withSpec true "thin-triangle-f32-conditioning" msg
+            else v.withSpec true key msg
           | none => v
         -- correspondence: model fragments at the pixels both sides produce
         let model := triFill v0 v1 v2
@@ -105,7 +118,7 @@ def handle (case impl : List String) : Verdict :=
                 ((vals.zip mf).zip tols).zipIdx.findSome? fun (((g, m), tol), j) =>
                   if ratAbs (g - m) > tol then some s!"pixel ({px},{row.y}) component {j}: impl {ratApprox g} model {ratApprox m}" else none
         let v := match valueDiff with
-          | some m => if a2 == 0 then v else v.withDiff true m
+          | some m => if a2 == 0 then v else if illCond then { v with amb := true } else v.withDiff true m
           | none => v
         v
   | _ => bad "unknown op"
